@@ -28,6 +28,7 @@ import resource
 import signal
 import struct
 import subprocess
+import threading
 import time
 
 from .. import build
@@ -280,6 +281,52 @@ def tagged_pids(tag):
 
 
 GRACE = 5.0
+HANG_IDLE = 5.0       # a VM whose peer is gone and which sleeps without using CPU for this long is hung
+HANG_CAP = 8          # confirmed hangs per (step, process|message kinds) after which the class is not scheduled further
+
+
+def vm_cpu_state(pid):
+    """(utime+stime in ticks, set of thread states, wchan) of a process, None if it is gone."""
+    try:
+        with open("/proc/%d/stat" % pid, "rb") as f:
+            st = f.read()
+        rest = st[st.rindex(b")") + 2:].split()
+        cpu = int(rest[11]) + int(rest[12])
+        states = set()
+        for t in os.listdir("/proc/%d/task" % pid):
+            try:
+                with open("/proc/%d/task/%s/stat" % (pid, t), "rb") as f:
+                    ts = f.read()
+                states.add(ts[ts.rindex(b")") + 2:ts.rindex(b")") + 3].decode())
+            except (OSError, ValueError):
+                pass
+        try:
+            with open("/proc/%d/wchan" % pid) as f:
+                wchan = f.read().strip()
+        except OSError:
+            wchan = "?"
+        return cpu, states, wchan
+    except (OSError, ValueError, IndexError):
+        return None
+
+
+def peer_gone(tag, vm_pid, logp):
+    """True when no stand-in can still send anything to the VM: every live process of the case other than the VM
+    itself (found by the tag, so a forked child that has not exec'ed yet counts as live) has logged that it
+    closed its stdout.  A stand-in must have been launched at all."""
+    try:
+        with open(logp) as f:
+            lines = f.read().splitlines()
+    except OSError:
+        return False
+    if not any(ln.endswith(" launch") for ln in lines):
+        return False
+    closed = set()
+    for ln in lines:
+        parts = ln.split(" ", 2)
+        if len(parts) == 3 and parts[2] == "closed fd 1" and parts[1].isdigit():
+            closed.add(int(parts[1]))
+    return all(q in closed for q in tagged_pids(tag) if q != vm_pid)
 
 
 def run_case(flavor, bindir, casedir, sc, tag, tables, wall=40):
@@ -311,21 +358,44 @@ def run_case(flavor, bindir, casedir, sc, tag, tables, wall=40):
         p = subprocess.Popen(cmd, cwd=casedir, env=env, stdin=subprocess.DEVNULL, stdout=fo, stderr=fe,
                              preexec_fn=_preexec(20))
     timeout = False
+    hang = None
     try:
-        p.wait(timeout=wall)
+        p.wait(timeout=1.0)
     except subprocess.TimeoutExpired:
-        timeout = True
-        try:
-            os.killpg(p.pid, signal.SIGKILL)
-        except OSError:
-            pass
-        p.wait()
+        # Still running after a second (a normal case takes well under that).  Decide logically whether it hangs:
+        # the peer is gone (dead, or has closed the pipe the VM reads from) AND the VM sleeps without consuming
+        # any CPU for HANG_IDLE seconds.  That is not the silent-but-alive peer which the property leaves out:
+        # nobody is left who could ever wake the VM.  The wall-clock watchdog stays for everything else.
+        idle_since = None
+        idle_cpu = None
+        while p.poll() is None:
+            now = time.time()
+            if now - t0 >= wall:
+                timeout = True
+                break
+            st = vm_cpu_state(p.pid)
+            if st and st[1] == {"S"} and peer_gone(tag, p.pid, logp):
+                if idle_since is None or st[0] != idle_cpu:
+                    idle_since, idle_cpu = now, st[0]
+                elif now - idle_since >= HANG_IDLE:
+                    hang = "state S, no CPU time consumed for %.1f s, wchan=%s, %.1f s after start" % (
+                        now - idle_since, st[2], now - t0)
+                    break
+            else:
+                idle_since = None
+            time.sleep(0.25)
+        if timeout or hang:
+            try:
+                os.killpg(p.pid, signal.SIGKILL)
+            except OSError:
+                pass
+            p.wait()
     t_exit = time.time()
     # orphan scan: anything with the tag still alive?  allow GRACE seconds (the stand-in honours EOF at once,
     # the close kinds linger 300 ms), after that it is a leftover that only the VM could have removed.
     orphans = []
     scans = 0
-    if not timeout:
+    if not timeout and not hang:
         while True:
             orphans = tagged_pids(tag)
             scans += 1
@@ -345,7 +415,7 @@ def run_case(flavor, bindir, casedir, sc, tag, tables, wall=40):
         log = ""
     loglines = log.splitlines()
     return dict(sc=sc, flavor=flavor.name, rc=rc if rc >= 0 else None, sig=-rc if rc < 0 else 0, out=out, err=err,
-                log=log, timeout=timeout, orphans=orphans, scans=scans, wall=t_exit - t0,
+                log=log, timeout=timeout, hang=hang, orphans=orphans, scans=scans, wall=t_exit - t0,
                 instances=sum(1 for ln in loglines if ln.endswith(" launch")),
                 fired=sum(1 for ln in loglines if " fault-fired " in ln),
                 served=sum(1 for ln in loglines if " reply " in ln),
@@ -372,6 +442,9 @@ def classify(ob):
     prog = PROGS[sc["prog"]]
     if ob["timeout"]:
         return "timeout", None, "watchdog"
+    if ob["hang"]:
+        return "hang:peer-gone", "hang|peer-gone", ("the co-process is gone (dead or its stdout closed) and nano_vm neither "
+                                                    "reported an error nor recovered: it sleeps for ever (%s)" % ob["hang"])
     m = SAN_RE.search(ob["err"])
     if m:
         first = ob["err"][m.start():].splitlines()[0]
@@ -448,11 +521,31 @@ def run(ctx):
                 jobs.append((fl, s, len(jobs)))
         ctx.rng("order").shuffle(jobs)
 
+        hang_count = {}      # (step, process|message) -> confirmed hangs; shared by the worker threads
+        hang_lock = threading.Lock()
+
+        def hang_class(s):
+            return (s["step"], "process" if s["kind"] in PROCESS_KINDS else "message")
+
         def one(job):
             fl, s, idx = job
             tag = "c16-%s-%d" % (runid, idx)
             cdir = os.path.join(sc.path, "cases", "%05d" % idx)
+            with hang_lock:
+                capped = hang_count.get(hang_class(s), 0) >= HANG_CAP
+            if capped and s["step"] != "none":
+                # a build that hangs systematically in this class has been shown to do so: do not pay for more
+                return dict(sc=s, flavor=fl.name, skipped=True)
             ob = run_case(fl, bindir, cdir, s, tag, tables)
+            if ob["hang"]:
+                ob2 = run_case(fl, bindir, cdir, s, tag + "r", tables)      # confirm before reporting
+                ob2["retried"] = True
+                if ob2["hang"]:
+                    with hang_lock:
+                        hang_count[hang_class(s)] = hang_count.get(hang_class(s), 0) + 1
+                else:
+                    ob2["unconfirmed_hang"] = ob["hang"]
+                return ob2
             if ob["timeout"]:
                 ob = run_case(fl, bindir, cdir, s, tag + "r", tables)
                 ob["retried"] = True
@@ -474,9 +567,17 @@ def run(ctx):
         controls_ok = 0
         samples = []
         nvm_bytes = {p.name: open(p.nvm, "rb").read() for p in PROGS.values()}
+        skipped = {}
+        unconfirmed_hangs = []
         for ob in obs:
             s = ob["sc"]
             prog = PROGS[s["prog"]]
+            if ob.get("skipped"):
+                hk = "%s/%s kinds" % hang_class(s)
+                skipped[hk] = skipped.get(hk, 0) + 1
+                continue
+            if ob.get("unconfirmed_hang"):
+                unconfirmed_hangs.append("%s prog=%s %s: %s" % (cell(s), s["prog"], ob["flavor"], ob["unconfirmed_hang"]))
             cls, vtag, why = classify(ob)
             orphan_scans += ob["scans"]
             hk = "%s/%s" % (s["step"], s["kind"])
@@ -560,7 +661,7 @@ def run(ctx):
             ctx.require(relaunch_runs >= 3, "fewer than 3 runs in which a second co-process instance was started (%d)" % relaunch_runs)
             ctx.require(len(fired_cells) >= 300, "too few distinct cells with an injected fault (%d)" % len(fired_cells))
         return ctx.finish({
-            "evaluations": len(obs),
+            "evaluations": len(obs) - sum(skipped.values()),
             "distinct_nontrivial": len(fired_cells),
             "rule": "distinct (program, step, kind, k, flavor) cells whose run was executed AND whose stand-in log shows the "
                     "fault-fired record (the fault was really injected); repetitions of a cell (second-instance mode, "
@@ -583,6 +684,9 @@ def run(ctx):
             "orphan_scans": orphan_scans,
             "jitter_seeds": [j for j in jitters if j is not None],
             "watchdog_cases": timeouts[:20],
+            "confirmed_hangs_by_class": {"%s/%s kinds" % k: v for k, v in hang_count.items()},
+            "cells_not_run_after_hang_cap": skipped,
+            "unconfirmed_hangs": unconfirmed_hangs[:20],
             "controls_not_served_by_stand_in": control_fallback,
             "samples": samples,
         }, assumptions=[
@@ -590,6 +694,10 @@ def run(ctx):
             "the case's working directory has no bin/nano_cop",
             "a peer that stays alive and silent is not explored: the VM has no timeout and the property does not list it; "
             "truncated messages are therefore followed by closing stdout",
+            "hang verdict: every stand-in of the case is dead or has closed its stdout, and the VM then sleeps (all threads "
+            "in state S) without consuming CPU time for %.0f s; confirmed by running the cell a second time; after %d confirmed "
+            "hangs of one (step, process|message kinds) class the remaining cells of that class are not run (listed in the "
+            "evidence; the run is then a violation anyway)" % (HANG_IDLE, HANG_CAP),
             "a leftover is a live, non-zombie process whose /proc/<pid>/environ carries the per-case tag 5 s after the VM exited",
             "mid_reply x message kinds corrupts the payload inside a well-formed frame; the VM cannot notice that at call k, "
             "it must notice the misframed stream at call k+1 (k <= 3 < 4 calls)",
